@@ -53,7 +53,7 @@ STRS = ["x", "", "Ｅ!", "é", "a b"]
 OPS = ["add", "addstr", "raddstr", "mul", "slice", "anyslice", "index", "splice", "splicestr", "append", "join", "split", "splitlines",
        "ljust", "rjust", "cwna", "nwar", "cwns", "was", "wasl", "upper", "fmtstr", "copy", "linesplit", "strip", "fmtwrap",
        # ranges that reach past the end / start beyond it (legal for splice and the FSArray row primitive), repeated values
-       "splice_past", "splicestr_past", "setslice", "setslice_pad", "mul3", "joinself"]
+       "splice_past", "splicestr_past", "setslice", "setslice_pad", "mul3", "joinself", "wasmid", "wasint"]
 OBS = {"s": lambda f: f.s, "len": len, "str": str, "width": lambda f: f.width, "repr": repr, "hash": hash}
 
 
@@ -125,23 +125,45 @@ def run_program(seed, steps=8):
             a = rng.randint(0, len(f))
             b = rng.randint(a, len(f))
             n = rng.randint(0, 2)
-            prog.append((op, i, j, t, a, b, n))
+            lo_, hi_, flag_ = rng.randint(-len(f) - 2, len(f) + 2), rng.randint(-len(f) - 2, len(f) + 2), rng.random() < .5
+            wa_, wb_ = rng.randint(0, 3), rng.randint(0, 6)
+            prog.append((op, i, j, t, a, b, n, lo_, hi_, flag_, wa_, wb_))
+
+            def apply(f, g):
+                return {"add": lambda: [f + g], "addstr": lambda: [f + t], "raddstr": lambda: [t + f], "mul": lambda: [f * n],
+                        "slice": lambda: [f[a:b]], "anyslice": lambda: [f[lo_:hi_]], "index": lambda: [f[a]], "splice": lambda: [f.splice(g, a, b)],
+                        "splicestr": lambda: [f.splice(t, a)], "append": lambda: [f.append(g)], "join": lambda: [f.join([g, t, f])],
+                        "split": lambda: f.split("a"), "splitlines": lambda: f.splitlines(), "ljust": lambda: [f.ljust(len(f) + 2)],
+                        "rjust": lambda: [f.rjust(len(f) + 2)], "cwna": lambda: [f.copy_with_new_atts(bold=flag_)],
+                        "nwar": lambda: [f.new_with_atts_removed("fg")], "cwns": lambda: [f.copy_with_new_str("zz")],
+                        "was": lambda: [f.width_aware_slice(slice(0, b))], "wasl": lambda: list(f.width_aware_splitlines(2)),
+                        "wasmid": lambda: [f.width_aware_slice(slice(wa_, wa_ + wb_))], "wasint": lambda: [f.width_aware_slice(wa_)],
+                        "upper": lambda: [f.upper()], "fmtstr": lambda: [fmtstr(f, "red")], "copy": lambda: [f.copy()],
+                        "linesplit": lambda: linesplit(f, 3), "strip": lambda: [f.strip()], "fmtwrap": lambda: [fmtstr(f, bold=False)],
+                        "splice_past": lambda: [f.splice(g, a, len(f) + 1 + n)], "splicestr_past": lambda: [f.splice(t, a, len(f) + 2)],
+                        "setslice": lambda: [f.setslice_with_length(a, b, t, len(f) + 3)],
+                        "setslice_pad": lambda: [f.setslice_with_length(len(f) + 1, len(f) + 2, t, len(f) + 4)],
+                        "mul3": lambda: [f * 3], "joinself": lambda: [f.join([f, g, f])]}[op]()
+
+            def outcome(f, g):
+                try:
+                    return ("values", [(_snap(x) if isinstance(x, FmtStr) else repr(x)) for x in apply(f, g)])
+                except (ValueError, IndexError, AssertionError) as e:
+                    return ("raises", type(e).__name__)
+            # the answer of an operation is a function of the VALUES of its operands: the same operation on fresh, structurally equal
+            # copies (never sliced, measured or rendered before) must give the same result
+            ff = _fresh(f)
+            gf = ff if g is f else _fresh(g)
+            want = outcome(ff, gf)
             try:
-                r = {"add": lambda: [f + g], "addstr": lambda: [f + t], "raddstr": lambda: [t + f], "mul": lambda: [f * n],
-                     "slice": lambda: [f[a:b]], "anyslice": lambda: [f[rng.randint(-len(f) - 2, len(f) + 2):rng.randint(-len(f) - 2, len(f) + 2)]], "index": lambda: [f[a]], "splice": lambda: [f.splice(g, a, b)],
-                     "splicestr": lambda: [f.splice(t, a)], "append": lambda: [f.append(g)], "join": lambda: [f.join([g, t, f])],
-                     "split": lambda: f.split("a"), "splitlines": lambda: f.splitlines(), "ljust": lambda: [f.ljust(len(f) + 2)],
-                     "rjust": lambda: [f.rjust(len(f) + 2)], "cwna": lambda: [f.copy_with_new_atts(bold=rng.random() < .5)],
-                     "nwar": lambda: [f.new_with_atts_removed("fg")], "cwns": lambda: [f.copy_with_new_str("zz")],
-                     "was": lambda: [f.width_aware_slice(slice(0, b))], "wasl": lambda: list(f.width_aware_splitlines(2)),
-                     "upper": lambda: [f.upper()], "fmtstr": lambda: [fmtstr(f, "red")], "copy": lambda: [f.copy()],
-                     "linesplit": lambda: linesplit(f, 3), "strip": lambda: [f.strip()], "fmtwrap": lambda: [fmtstr(f, bold=False)],
-                     "splice_past": lambda: [f.splice(g, a, len(f) + 1 + n)], "splicestr_past": lambda: [f.splice(t, a, len(f) + 2)],
-                     "setslice": lambda: [f.setslice_with_length(a, b, t, len(f) + 3)],
-                     "setslice_pad": lambda: [f.setslice_with_length(len(f) + 1, len(f) + 2, t, len(f) + 4)],
-                     "mul3": lambda: [f * 3], "joinself": lambda: [f.join([f, g, f])]}[op]()
-            except (ValueError, IndexError, AssertionError):
+                r = apply(f, g)
+                got = ("values", [(_snap(x) if isinstance(x, FmtStr) else repr(x)) for x in r])
+            except (ValueError, IndexError, AssertionError) as e:
                 r = []
+                got = ("raises", type(e).__name__)
+            if got != want:
+                return prog, (f"step {step}: {op} on value #{i} (and #{j}) gives {str(got)[:300]}, the same operation on fresh equal values gives "
+                              f"{str(want)[:300]}: the answer depends on what was done with the operand before")
             for x in r:
                 if isinstance(x, FmtStr) and len(pool) < 12:
                     pool.append(x)
@@ -242,7 +264,50 @@ def interrupted(check, tier, seed):
     s.done()
 
 
+def slice_mix(check, tier):
+    """a slice by columns and a slice by characters of the SAME object, in both orders, each against the same slice of a fresh equal
+    value: reading a value one way must not change what reading it the other way returns (strings with double-width and zero-width
+    characters, so that the two units differ)"""
+    import itertools
+    s = Suite(check, "C13.slice_mix", "every string of length 3..4 over {narrow, double-width, combining} x every split into 3 runs x every "
+              "column range x every character range (lengths 1..2), the two slices taken from one object in both orders: each equals the "
+              "same slice of a fresh structurally equal value", bound="length <= 4, 3 runs")
+    A3 = [{"fg": 31}, {"bold": True}, {"bg": 44}]
+    lens = (3, 4) if tier == "thorough" else (3,)
+    for n in lens:
+        for p in itertools.product("aＥ́", repeat=n):
+            st = "".join(p)
+            for i in range(n + 1):
+                for j in range(i, n + 1):
+                    mk = lambda: FmtStr(Chunk(st[:i], A3[0]), Chunk(st[i:j], A3[1]), Chunk(st[j:], A3[2]))
+                    w = mk().width
+                    for ca in range(0, w + 1):
+                        for cl in (1, 2):
+                            for ka in range(0, n):
+                                for kl in (1, 2):
+                                    want_c = _snap(mk().width_aware_slice(slice(ca, ca + cl)))
+                                    want_k = _snap(mk()[ka:ka + kl])
+                                    for order in (0, 1):
+                                        s.evaluations += 1
+                                        x = mk()
+                                        if order == 0:
+                                            got_c = _snap(x.width_aware_slice(slice(ca, ca + cl)))
+                                            got_k = _snap(x[ka:ka + kl])
+                                        else:
+                                            got_k = _snap(x[ka:ka + kl])
+                                            got_c = _snap(x.width_aware_slice(slice(ca, ca + cl)))
+                                        if got_c != want_c or got_k != want_k:
+                                            s.fail("C13.slice_order", dict(text=st, runs=[i, j], columns=[ca, ca + cl], characters=[ka, ka + kl],
+                                                                           first="columns" if order == 0 else "characters"),
+                                                   f"x.width_aware_slice({ca}:{ca + cl}) = {got_c[1]} (fresh value: {want_c[1]}), x[{ka}:{ka + kl}] = "
+                                                   f"{got_k[1]} (fresh value: {want_k[1]})")
+    s.nontrivial = set(range(s.evaluations))
+    s.samples = [dict(text="Ｅab", runs=[1, 2], columns=[2, 3], characters=[1, 2])]
+    s.done()
+
+
 def run(check, tier, seed):
     deductive(check, tier)
     bounded(check, tier, seed)
     interrupted(check, tier, seed)
+    slice_mix(check, tier)
